@@ -577,6 +577,11 @@ class BatteryDistributionAlgorithm:
         inverter_distribution = self._distribute_multi_inverter_pairs(
             distribution, excl_bounds, incl_bounds
         )
+        # Power allocated to an inverter set that could not be placed on any of its
+        # inverters is not sent to any component, so it is part of the remaining power.
+        left_over += sum(power.power for power in distribution.values()) - sum(
+            inverter_distribution.values()
+        )
 
         return DistributionResult(
             distribution=inverter_distribution, remaining_power=left_over
